@@ -85,18 +85,26 @@ ANCHORS = [
     "txtorcon.controller:TorProcessProtocol.cleanup",
 ]
 FLOORS = {
-    "quick": {"evaluations": 3000, "steps_judged": 15000, "launch_outcomes_judged": 2000,
-              "when_connected_outcomes_judged": 10000, "launch_success_judged": 150,
-              "temp_dir_checks_after_exit": 1500, "caller_dir_checks": 8000, "timeouts_elapsed_judged": 500,
-              "shutdown_firings": 3000, "split_listener_cases": 30,
-              "reach:txtorcon.controller:TorProcessProtocol._maybe_notify_connected": 3000,
-              "reach:txtorcon.controller:TorProcessProtocol.processEnded": 3000,
-              "reach:txtorcon.controller:TorProcessProtocol._timeout_expired": 300,
-              "reach:txtorcon.controller:TorProcessProtocol._tor_connected": 1000},
-    "thorough": {"evaluations": 40000, "steps_judged": 200000, "launch_outcomes_judged": 30000,
-                 "when_connected_outcomes_judged": 150000, "launch_success_judged": 2000,
-                 "temp_dir_checks_after_exit": 20000, "caller_dir_checks": 100000,
-                 "timeouts_elapsed_judged": 5000, "shutdown_firings": 40000, "split_listener_cases": 5000},
+    "quick": {"evaluations": 3500, "steps_judged": 30000, "launch_outcomes_judged": 3500,
+              "when_connected_outcomes_judged": 25000, "launch_success_judged": 500,
+              "temp_dir_checks_after_exit": 2500, "caller_dir_checks": 15000,
+              "timeouts_before_bootstrap_judged": 1500, "shutdown_firings": 3500, "split_listener_cases": 600,
+              "reach:txtorcon.controller:TorProcessProtocol._maybe_notify_connected": 6000,
+              "reach:txtorcon.controller:TorProcessProtocol.when_connected": 25000,
+              "reach:txtorcon.controller:TorProcessProtocol.processEnded": 3500,
+              "reach:txtorcon.controller:TorProcessProtocol.cleanup": 3500,
+              "reach:txtorcon.controller:TorProcessProtocol._timeout_expired": 1500,
+              "reach:txtorcon.controller:TorProcessProtocol._status_client": 1500,
+              "reach:txtorcon.controller:TorProcessProtocol._tor_connected": 2500},
+    "thorough": {"evaluations": 25000, "steps_judged": 200000, "launch_outcomes_judged": 25000,
+                 "when_connected_outcomes_judged": 150000, "launch_success_judged": 3000,
+                 "temp_dir_checks_after_exit": 15000, "caller_dir_checks": 100000,
+                 "timeouts_before_bootstrap_judged": 10000, "shutdown_firings": 25000,
+                 "split_listener_cases": 10000,
+                 "reach:txtorcon.controller:TorProcessProtocol._maybe_notify_connected": 40000,
+                 "reach:txtorcon.controller:TorProcessProtocol.processEnded": 25000,
+                 "reach:txtorcon.controller:TorProcessProtocol._timeout_expired": 10000,
+                 "reach:txtorcon.controller:TorProcessProtocol._tor_connected": 15000},
 }
 
 TIMEOUT = 30
@@ -112,6 +120,10 @@ def listener_text(where):
 
 
 TCP_LISTENER_LEN = len(listener_text("127.0.0.1:%d" % TCP_CONTROL_PORT))
+# split offsets around the phrase "Opening Control listener" (bytes 29..53 of the chunk), start, middle, end
+BOUNDARY_OFFSETS = [1, len(STAMP) - 1, len(STAMP), len(STAMP) + 1, len(STAMP) + 12, len(STAMP) + len(PHRASE) - 1,
+                    len(STAMP) + len(PHRASE), len(STAMP) + len(PHRASE) + 1, 60, TCP_LISTENER_LEN // 2,
+                    TCP_LISTENER_LEN - 1]
 
 # ---------------------------------------------------------------------------
 # schedule enumeration (pure; the causal model of what can follow what)
@@ -906,13 +918,17 @@ def plan(tier, seed):
     if tier == "quick":
         for k in range(14):
             specs.append({"mode": "perm", "maxlen": 6, "k": k, "of": 14})
-        offs = [1, 28, 29, 30, 41, 52, 53, 54, 60, TCP_LISTENER_LEN // 2, TCP_LISTENER_LEN - 1]
         for k in range(2):
-            specs.append({"mode": "split", "maxlen": 4, "offsets": offs, "k": k, "of": 2})
+            specs.append({"mode": "split", "maxlen": 4, "offsets": BOUNDARY_OFFSETS, "k": k, "of": 2})
     else:
         for k in range(32):
             specs.append({"mode": "perm", "maxlen": 7, "k": k, "of": 32, "timeout_s": 3000})
-        offs = list(range(1, TCP_LISTENER_LEN))
-        for k in range(16):
-            specs.append({"mode": "split", "maxlen": 5, "offsets": offs, "k": k, "of": 16, "timeout_s": 3000})
+        # every byte offset of the listener output x all permutations <= 4; the offsets around the
+        # phrase boundaries also with all permutations <= 5
+        for k in range(12):
+            specs.append({"mode": "split", "maxlen": 4, "offsets": list(range(1, TCP_LISTENER_LEN)),
+                          "k": k, "of": 12, "timeout_s": 3000})
+        for k in range(4):
+            specs.append({"mode": "split", "maxlen": 5, "offsets": BOUNDARY_OFFSETS, "k": k, "of": 4,
+                          "timeout_s": 3000})
     return specs
